@@ -256,4 +256,3 @@ func gen[T any](rng *rand.Rand) *T {
 
 	return p
 }
-
